@@ -10,19 +10,19 @@ CHECKS = {
  "C02": ("model_checking", "Same exploration with fault prefixes followed by a fair network: Reliable-never-skipped on every round, and bounded liveness (all Reliable packets delivered exactly once, nothing pending, send buffer 0) within an a-priori horizon of 300 s virtual time.", "4.C02", "deviation-bounded stateless model checking with fair suffix; bounded liveness", LW_NOTE),
  "C03": ("fault_enumeration", "Every explored execution runs under catch_unwind with a per-call work budget and a wall-clock watchdog: state-relative hostile data/ack/sync frames at every round of a link-world session, every short payload after every type byte and frames with extreme fields against real endpoints in every connection state (an honest client must still be served), all TFRC event sequences of C14, and a cross-section of the other properties' fault explorations.", "4.C03", "exhaustive enumeration of hostile inputs against the real code with panic / work-budget / watchdog oracles", LW_NOTE + " Debug assertions and overflow checks are on, so they count as panics."),
  "C04": ("model_checking", "One packet of every boundary size around the fragment multiples through the real sender/receiver pair with flush budgets that cut it across flushes and per-frame fates (deviation-bounded), plus a lone real receiver fed with every arrival order, duplication pattern, interleaving and every disagreeing fragment at every position.", "4.C04", "deviation-bounded stateless model checking (link world) + exhaustive enumeration of fragment arrival sequences on the real receiver", LW_NOTE),
- "C05": ("model_checking", "Ideal network, all timing/application choices (step spacing, skipped steps, extra flushes, latencies) up to d deviations: global delivery order must equal submission order minus TimeSensitive packets.", "4.C05", "deviation-bounded stateless model checking on an ideal link (timing/application choices) against a global FIFO reference model", LW_NOTE),
+ "C05": ("model_checking", "Ideal network, all timing/application choices (step spacing, skipped steps, extra flushes, latencies) up to d deviations, on its own scripts and on the scripts/configurations of the shared pool: global delivery order must equal submission order minus TimeSensitive packets.", "4.C05", "deviation-bounded stateless model checking on an ideal link (timing/application choices) against a global FIFO reference model", LW_NOTE),
  "C06": ("fault_enumeration", "Grid of hostile datagram streams (claimed fragment counts up to 65536, ids inside/at the edge/outside the window, never-completing packets, frame id strides, bursts between steps) against a lone real receiver under a counting allocator; sender half by deviation-bounded link-world exploration with a wire-level allocation ledger.", "4.C06", "exhaustive enumeration of a hostile-stream generator grid on the real receiver with a counting allocator + deviation-bounded stateless model checking for the sender half", LW_NOTE),
  "C07": ("model_checking", "Real Server/Client/raw peers on the in-memory network: complete enumeration of the fates of the handshake datagrams plus deviation-bounded exploration of everything else, judged by a nonce-provenance ledger; forged handshake frames are checked differentially against the same run without the forgery.", "4.C07", "explicit enumeration of handshake datagram fates + deviation-bounded stateless model checking of the endpoints against a handshake ledger; differential runs for forgeries", EW_NOTE),
  "C08": ("model_checking", "Deviation-bounded exploration of application calls (send/disconnect/disconnect_now/drop/reconnect), datagram fates and timer-relevant step spacings on real endpoints; every event stream is run through the reference automaton.", "4.C08", "deviation-bounded stateless model checking of the endpoints against a per-connection event automaton", EW_NOTE),
- "C09": ("model_checking", "Deviation-bounded exploration of fates and permanent blackouts around disconnect()/disconnect_now() by either side with 0-8 queued packets; flush-before-Disconnect and the 22 s termination budget are checked on every execution.", "4.C09", "deviation-bounded stateless model checking of the endpoints; bounded liveness", EW_NOTE),
+ "C09": ("model_checking", "Deviation-bounded exploration of fates and permanent blackouts around disconnect()/disconnect_now() by either side (also both at once, right after Connect, on a warm connection) with 0-8 queued packets; flush-before-Disconnect, the 22 s termination budget and 'Error(Timeout) only if the peer is unreachable' are checked on every execution.", "4.C09", "deviation-bounded stateless model checking of the endpoints; bounded liveness", EW_NOTE),
  "C10": ("model_checking", "Reference timers (active timeout, 10x2 s retry budgets) stepped alongside every explored execution over a grid of timeouts, keepalive settings, cadences and handshake losses, with deviating step spacings around the deadlines.", "4.C10", "deviation-bounded stateless model checking of the endpoints against reference timers", EW_NOTE),
- "C11": ("model_checking", "Fault phase (blackouts of 5-3000 rounds in one or both directions from any round, lasting latency/cadence changes by a factor 10-50, losses, pauses) then a fair network; probe packets of every mode submitted after the fault must be delivered within an a-priori horizon and pending data must have made progress.", "4.C11", "deviation-bounded stateless model checking with fair suffix; bounded liveness", LW_NOTE),
+ "C11": ("model_checking", "Fault phase (blackouts of 5-3000 rounds in one or both directions from any round, lasting latency/cadence changes by a factor 10-50, losses, pauses) then a fair network; probe packets of every mode submitted after the fault must be delivered within an a-priori horizon and pending data must have made progress; the shared pool is run with the bounded-liveness clause (nothing stalled at the horizon).", "4.C11", "deviation-bounded stateless model checking with fair suffix; bounded liveness", LW_NOTE),
  "C12": ("model_checking", "Transmissions per (packet, fragment) read from the wire of every explored execution and compared with the send-mode contract, using the acknowledgements actually handed to the sender.", "4.C12", "deviation-bounded stateless model checking; wire-level transmission monitor", LW_NOTE),
- "C13": ("model_checking", "Every pair of emission instants of every explored execution is checked against the rate bound C*(dt+RTT)+1472.", "4.C13", "deviation-bounded stateless model checking; all-intervals rate monitor", LW_NOTE),
+ "C13": ("model_checking", "Every pair of emission instants of every explored execution is checked against the rate bound C*(dt+RTT)+1472 (no rounding allowance), incl. feedback blackouts under backlog and fast step cadences.", "4.C13", "deviation-bounded stateless model checking; all-intervals rate monitor", LW_NOTE),
  "C19": ("fault_enumeration", "Link-world and endpoint-world executions under a checking global allocator (layout of every release compared with its allocation, unknown releases, live bytes after teardown), with the teardown point enumerated over every round and deviation-bounded fates.", "4.C19", "exhaustive enumeration of teardown points and bounded faults under a checking allocator", LW_NOTE),
- "C20": ("model_checking", "send_buffer_size() compared on every round of every explored execution with bounds derived from API calls and the wire.", "4.C20", "deviation-bounded stateless model checking against a byte-ledger reference model", LW_NOTE),
+ "C20": ("model_checking", "send_buffer_size() compared on every round of every explored execution with bounds derived from API calls and the wire; the same quantity at the API of Client and RemoteClient in the endpoint world.", "4.C20", "deviation-bounded stateless model checking against a byte-ledger reference model", LW_NOTE),
  "C14": ("model_checking", "All event sequences up to length 5-6 (reduced alphabet) / 3-4 (full boundary alphabet) over {frame sent, feedback, silence} applied to the real SendRateComp, every step compared with bounds computed independently from the RFC 5348 formulas.", "4.C14", "exhaustive enumeration of event sequences of the real TFRC state machine against an RFC 5348 reference", "Trusted base: harness, reference formulas (x_bps, W_init, s/64), rustc. Values outside the boundary alphabet and sequences longer than the bound are not covered."),
- "C15": ("model_checking", "Twin runs: for every baseline execution, round and letter of an ack alphabet (wrong nonce, unsent/forgotten ids, bitfields past the log, replays of genuine ack frames) the run with the extra frame is compared with the baseline on everything observable about the sender.", "4.C15", "differential (twin-run) stateless model checking on the link world", LW_NOTE),
+ "C15": ("model_checking", "Twin runs: for every baseline execution (one fate deviation), round and letter of an ack alphabet (wrong nonce, unsent/forgotten ids, bitfields past the log, window bases beyond anything sent, replays of genuine ack frames, a first-time acknowledgement alone vs. merged with a repeated one) the run with the extra frame is compared with the baseline on everything observable about the sender.", "4.C15", "differential (twin-run) stateless model checking on the link world", LW_NOTE),
  "C16": ("model_checking", "Exhaustive input enumeration: round trip over boundary values of every field; Frame::read against an independent reference parser on every short payload per type byte and every single-byte substitution/truncation/extension of sample frames; every <=4-bit error pattern, directly on control frames and for all 11776 positions of a full frame through single-bit syndromes of the real crc::compute.", "4.C16", "exhaustive input enumeration against an independent reference codec; syndrome-based exhaustive CRC weight check", "Trusted base: the reference parser and bitwise CRC in the harness, the affinity argument (checked on the table), rustc."),
  "C17": ("model_checking", "All interleavings of the handshake datagrams of 2-3 clients (complete enumeration; 4 clients deviation-bounded) against servers with small limits, with connections ending by disconnect, drop and timeout; limit ledger on the server's event stream and tracked count at every round.", "4.C17", "explicit enumeration of handshake interleavings on the real Server against a limit ledger", EW_NOTE),
  "C18": ("fault_enumeration", "Every sequence of up to 3-4 raw datagrams from spoofable addresses (valid, repeated, undersized, wrong-version, refused SYNs and stray frames of every type) with waits up to the handshake timeout, against a real Server; byte ledger per address.", "4.C18", "exhaustive enumeration of attacker datagram sequences against the real Server with a byte ledger", EW_NOTE),
